@@ -465,6 +465,7 @@ package pstoremem
 //@ ensures result0 ==> neverShortened()
 //@ ensures result0 ==> noForeignEntries(mab.addrs)
 //@ ensures result0 ==> forall q peer.ID, k string :: q != rec.PeerID ==> mab.addrs.Addrs[q][k] == old(mab.addrs.Addrs[q][k])
+//@ ensures !result0 && result1 == nil ==> forall q peer.ID :: q == rec.PeerID ==> old(has(mab.signedPeerRecords, q)) && old(mab.signedPeerRecords[q].Seq) > rec.Seq
 //@ noframe
 
 //@ func (mab *memoryAddrBook) addAddrs
